@@ -123,7 +123,7 @@ fn key_of(p: &Position) -> Key {
 }
 
 /// everything the selected properties want to know about one state
-pub fn check_state(rp: &Position, board: &Board, played: bool, props: &Props, want_children: bool) -> (Vec<Divergence>, StateStats, Vec<(Mv, Position, Option<Board>)>, u64) {
+pub fn check_state(rp: &Position, board: &Board, played: bool, props: &Props, want_children: bool, special_only: bool) -> (Vec<Divergence>, StateStats, Vec<(Mv, Position, Option<Board>)>, u64) {
     let legal = rp.legal_moves();
     let mut st = classify(rp, &legal);
     st.legality_filter_bites = rp.pseudo_legal().len() != legal.len();
@@ -147,10 +147,13 @@ pub fn check_state(rp: &Position, board: &Board, played: bool, props: &Props, wa
             d.extend(c02_refusals(rp, board, &legal, props.full_sweep, &mut st));
         }
         for &m in &legal {
+            if special_only && !is_special(rp, m) {
+                continue;
+            }
             let crp = rp.make(m);
             transitions += 1;
             let cb = if props.c02 {
-                let (cb, dd) = c02_transition(rp, board, m, &crp);
+                let (cb, dd) = c02_transition(rp, board, m, &crp, props.deep || is_rule_special(rp, m));
                 d.extend(dd);
                 cb
             } else {
@@ -212,8 +215,9 @@ pub fn run_e1(root: &Root, cfg: &E1Config, report: &Report, samples: &mut Vec<Va
                 .par_iter()
                 .map(|n| {
                     let mut props = cfg.props;
-                    props.full_sweep = cfg.props.full_sweep && (depth <= 2 || (n.idx as u64) % cfg.sweep_stride == 0);
-                    let (divs, stats, ch, transitions) = check_state(&n.rp, &n.board, depth > 0, &props, !last);
+                    props.deep = depth <= 2;
+                    props.full_sweep = cfg.props.full_sweep && (depth <= 1 || (n.idx as u64) % cfg.sweep_stride == 0);
+                    let (divs, stats, ch, transitions) = check_state(&n.rp, &n.board, depth > 0, &props, !last, false);
                     let children = ch.into_iter().map(|(mv, rp, board)| Child { mv, rp, board }).collect();
                     Expanded { divs, stats, children, transitions }
                 })
@@ -221,7 +225,7 @@ pub fn run_e1(root: &Root, cfg: &E1Config, report: &Report, samples: &mut Vec<Va
             for (n, e) in chunk.iter().zip(expanded) {
                 totals.add_state(&e.stats);
                 totals.transitions += e.transitions;
-                if cfg.props.full_sweep && (depth <= 2 || (n.idx as u64) % cfg.sweep_stride == 0) {
+                if cfg.props.full_sweep && (depth <= 1 || (n.idx as u64) % cfg.sweep_stride == 0) {
                     totals.full_sweeps += 1;
                 }
                 if !e.divs.is_empty() {
@@ -300,6 +304,12 @@ fn for_each_king_pair(mut f: impl FnMut(u8, u8)) {
 
 #[derive(Clone, Copy, PartialEq, Eq, Debug)]
 pub enum Family {
+    /// ep pawns, black king anywhere, white king in a corner, one WHITE piece anywhere:
+    /// en-passant captures that give direct, discovered and double checks
+    EpCheck,
+    /// pawn on the 7th, black king anywhere, one white piece anywhere, a capturable black
+    /// piece next to the promotion square: promotions that give direct and discovered checks
+    PromoCheck,
     Ep,
     Castle,
     Promo,
@@ -312,6 +322,77 @@ pub fn family_positions(fam: Family, level: u8) -> Vec<Position> {
     let mut out = vec![];
     let extras = [Pc::Q, Pc::R, Pc::B, Pc::N];
     match fam {
+        Family::EpCheck => {
+            for f in 0..8i8 {
+                for d in [-1i8, 1] {
+                    if !(0..8).contains(&(f + d)) {
+                        continue;
+                    }
+                    let mut base = Position::empty();
+                    base.turn = Col::W;
+                    base.ep = Some(f);
+                    base.full = 1;
+                    place(&mut base, sq(f, 4), Col::B, Pc::P);
+                    place(&mut base, sq(f + d, 4), Col::W, Pc::P);
+                    for bk in 0..64u8 {
+                        for wk in [0u8, 7, 56, 63, 3, 60] {
+                            let mut p = base.clone();
+                            if !place(&mut p, bk, Col::B, Pc::K) || !place(&mut p, wk, Col::W, Pc::K) {
+                                continue;
+                            }
+                            out.push(p.clone());
+                            for &x in &extras {
+                                for s in 0..64u8 {
+                                    let mut q = p.clone();
+                                    if place(&mut q, s, Col::W, x) {
+                                        out.push(q);
+                                    }
+                                }
+                            }
+                            if level == 0 {
+                                break;
+                            }
+                        }
+                    }
+                }
+            }
+        }
+        Family::PromoCheck => {
+            for f in 0..8i8 {
+                for victim in [None, Some((-1i8, Pc::R)), Some((1i8, Pc::N)), Some((0i8, Pc::N))] {
+                    let mut base = Position::empty();
+                    base.turn = Col::W;
+                    base.full = 1;
+                    place(&mut base, sq(f, 6), Col::W, Pc::P);
+                    if let Some((d, x)) = victim {
+                        if !(0..8).contains(&(f + d)) {
+                            continue;
+                        }
+                        place(&mut base, sq(f + d, 7), Col::B, x);
+                    }
+                    for bk in 0..64u8 {
+                        for wk in [0u8, 7, 56, 63, 3, 60] {
+                            let mut p = base.clone();
+                            if !place(&mut p, bk, Col::B, Pc::K) || !place(&mut p, wk, Col::W, Pc::K) {
+                                continue;
+                            }
+                            out.push(p.clone());
+                            for &x in &extras {
+                                for s in 0..64u8 {
+                                    let mut q = p.clone();
+                                    if place(&mut q, s, Col::W, x) {
+                                        out.push(q);
+                                    }
+                                }
+                            }
+                            if level == 0 {
+                                break;
+                            }
+                        }
+                    }
+                }
+            }
+        }
         Family::Ep => {
             // black pawn just double-stepped to (f,4); white capturer(s) beside it; one extra black piece
             for f in 0..8i8 {
@@ -470,7 +551,7 @@ pub fn family_positions(fam: Family, level: u8) -> Vec<Position> {
 
 /// run one family: every valid member (and its colour mirror) is checked at the root and, when
 /// `child_props` is set, one ply below it
-pub fn run_family(fam: Family, level: u8, props: &Props, child_props: Option<&Props>, report: &Report, samples: &mut Vec<Value>) -> Totals {
+pub fn run_family(fam: Family, level: u8, props: &Props, child_props: Option<&Props>, special_only: bool, report: &Report, samples: &mut Vec<Value>) -> Totals {
     let members = family_positions(fam, level);
     let mut totals = Totals::default();
     let results: Vec<Totals> = members
@@ -489,14 +570,14 @@ pub fn run_family(fam: Family, level: u8, props: &Props, child_props: Option<&Pr
                         report.record(&[Divergence::new("family-member-rejected", format!("valid position '{fen}' rejected by the parser"))], || json!({"kind": "fen", "fen": fen}));
                         continue;
                     };
-                    let (divs, st, children, transitions) = check_state(&p, &board, false, props, true);
+                    let (divs, st, children, transitions) = check_state(&p, &board, false, props, true, special_only);
                     t.add_state(&st);
                     t.transitions += transitions;
                     report.record(&divs, || json!({"kind": "state", "root": fen, "moves": []}));
                     if let Some(cp) = child_props {
                         for (m, crp, cb) in children {
                             let Some(cb) = cb else { continue };
-                            let (divs, st, _, _) = check_state(&crp, &cb, true, cp, false);
+                            let (divs, st, _, _) = check_state(&crp, &cb, true, cp, false, false);
                             t.add_state(&st);
                             report.record(&divs, || json!({"kind": "state", "root": fen, "moves": [m.uci()]}));
                         }
@@ -544,7 +625,7 @@ pub fn replay_state(root_fen: &str, moves: &[String], props: &Props) -> Vec<Dive
     }
     let mut props = *props;
     props.full_sweep = props.full_sweep && moves.len() <= 2;
-    let (dd, _, _, _) = check_state(&rp, &board, !moves.is_empty(), &props, true);
+    let (dd, _, _, _) = check_state(&rp, &board, !moves.is_empty(), &props, true, false);
     d.extend(dd);
     d
 }
